@@ -3,7 +3,6 @@ package formatter
 import (
 	"fmt"
 	"strings"
-	"unicode"
 
 	"golang.org/x/net/html"
 	"golang.org/x/net/html/atom"
@@ -315,7 +314,7 @@ func (f *Formatter) formatNode(n *html.Node, buf *strings.Builder, depth int) {
 		buf.WriteString("\n")
 
 	case html.TextNode:
-		text := strings.TrimSpace(n.Data)
+		text := trimHTMLSpace(n.Data)
 		if text != "" {
 			buf.WriteString(indent)
 			buf.WriteString(escapeText(text))
@@ -479,7 +478,7 @@ func (f *Formatter) renderInlineChildren(n *html.Node) string {
 			}
 		}
 	}
-	return strings.TrimSpace(b.String())
+	return trimHTMLSpace(b.String())
 }
 
 // escapeText escapes HTML-significant characters (&, <, >) in text content.
@@ -560,7 +559,7 @@ func trimRawContent(s string) string {
 // normalizeInlineText collapses whitespace in inline text while preserving
 // boundary spaces needed between inline elements and text.
 func normalizeInlineText(s string) string {
-	trimmed := strings.TrimSpace(s)
+	trimmed := trimHTMLSpace(s)
 	if trimmed == "" {
 		// Whitespace-only text between inline elements: preserve as single space
 		if len(s) > 0 {
@@ -570,29 +569,37 @@ func normalizeInlineText(s string) string {
 	}
 
 	// Collapse internal whitespace runs to single spaces
-	fields := strings.Fields(trimmed)
+	fields := strings.FieldsFunc(trimmed, isHTMLSpace)
 	out := strings.Join(fields, " ")
 
 	// Preserve leading space if original had one (boundary between elements)
 	runes := []rune(s)
-	if len(runes) > 0 && unicode.IsSpace(runes[0]) {
+	if len(runes) > 0 && isHTMLSpace(runes[0]) {
 		out = " " + out
 	}
 
 	// Preserve trailing space if original had one
-	if len(runes) > 0 && unicode.IsSpace(runes[len(runes)-1]) {
+	if len(runes) > 0 && isHTMLSpace(runes[len(runes)-1]) {
 		out = out + " "
 	}
 
 	return out
 }
 
+// htmlSpace is the white space HTML collapses: space, tab, LF, FF, CR. Every other character - the no-break
+// space and the other Unicode spaces included - is content and is kept as written.
+const htmlSpace = " \t\n\f\r"
+
+func isHTMLSpace(r rune) bool { return strings.ContainsRune(htmlSpace, r) }
+
+func trimHTMLSpace(s string) string { return strings.Trim(s, htmlSpace) }
+
 // isIgnorableWhitespace checks if a text node is only whitespace between block elements.
 func (f *Formatter) isIgnorableWhitespace(n *html.Node) bool {
 	if n.Type != html.TextNode {
 		return false
 	}
-	return strings.TrimSpace(n.Data) == ""
+	return trimHTMLSpace(n.Data) == ""
 }
 
 // renderOpenTag renders an opening tag with attributes.
